@@ -353,6 +353,9 @@ def check_router_chain(ctx, model):
 
 def run(ctx):
     model = ctx.model()
+    # simulation and execution of the 3-pool build the curve from the same inputs: the stored ramp and the block HEIGHT
+    from .C04 import check_curve_inputs
+    check_curve_inputs(ctx, model, rule="C14-S3")
     from .poolvalue import check_fee_lookup_same_asset
     check_fee_lookup_same_asset(ctx, model, "terraswap_pair", "C14-S1")
     check_fee_lookup_same_asset(ctx, model, "stableswap_3pool", "C14-S1")
